@@ -8,6 +8,8 @@ package tsm1
 // DESIGN.md section 4, C09.
 
 import (
+	"bufio"
+	"bytes"
 	"context"
 	"crypto/sha256"
 	"fmt"
@@ -51,6 +53,8 @@ type vC09Case struct {
 	base  int64
 	files []*vC09File // sorted by (gen,seq)
 	order []int       // creation order on disk
+	// forceSize != 0: the scenario needs this points-per-block setting (block-count limit case)
+	forceSize int
 }
 
 var vC09Types = []byte{'f', 'i', 'u', 'b', 's'}
@@ -181,7 +185,13 @@ func vC09Derive(rt *rapid.T, prev []vC09Blk, rel string) []vC09Blk {
 // vC09DrawCase draws the whole input: keys, files, blocks, tombstones.
 func vC09DrawCase(rt *rapid.T, maxFiles int) *vC09Case {
 	c := &vC09Case{}
+	// rare scenario: one key with more points than one file may hold blocks of (65535) when
+	// re-chunked at one point per block, so the compactor must roll over to a second file
+	blockLimit := rapid.IntRange(0, 149).Draw(rt, "blockLimit") == 0
 	nkeys := rapid.SampledFrom([]int{1, 1, 2, 2, 3, 3, 4, 6, 12}).Draw(rt, "nkeys")
+	if blockLimit && nkeys > 2 {
+		nkeys = 2
+	}
 	longKey := rapid.IntRange(0, 19).Draw(rt, "longKey") == 0
 	for i := 0; i < nkeys; i++ {
 		k := fmt.Sprintf("m%02d,host=h%d#!~#v", i/2, i%2)
@@ -196,7 +206,13 @@ func vC09DrawCase(rt *rapid.T, maxFiles int) *vC09Case {
 	for range c.keys {
 		c.types = append(c.types, rapid.SampledFrom(vC09Types).Draw(rt, "type"))
 	}
-	nfiles := rapid.IntRange(1, maxFiles).Draw(rt, "nfiles")
+	nfiles := rapid.SampledFrom([]int{1, 2, 2, 2, 3, 3, 3, 4, 4, 5, 6, 8}).Draw(rt, "nfiles")
+	if nfiles > maxFiles {
+		nfiles = maxFiles
+	}
+	if blockLimit {
+		nfiles = 1
+	}
 	big := rapid.IntRange(0, 4).Draw(rt, "big") == 0
 	budget := 12000
 	gen := rapid.IntRange(1, 3).Draw(rt, "gen0")
@@ -236,6 +252,19 @@ func vC09DrawCase(rt *rapid.T, maxFiles int) *vC09Case {
 		if !any { // a TSM file cannot be empty
 			lf.blocks[0] = []vC09Blk{{ts: []int64{rapid.Int64Range(0, 40).Draw(rt, "only")}}}
 			last[0] = lf.blocks[0]
+		}
+		if blockLimit {
+			nb := 66 + rapid.IntRange(0, 2).Draw(rt, "limitBlocks")
+			lf.blocks[0] = nil
+			for b := 0; b < nb; b++ {
+				ts := make([]int64, 1000)
+				for i := range ts {
+					ts[i] = int64(b*1000 + i)
+				}
+				lf.blocks[0] = append(lf.blocks[0], vC09Blk{ts})
+			}
+			last[0] = lf.blocks[0]
+			c.forceSize = 1
 		}
 		logical = append(logical, lf)
 	}
@@ -317,6 +346,11 @@ func vC09DrawCase(rt *rapid.T, maxFiles int) *vC09Case {
 				}
 			}
 			fl.tombs = append(fl.tombs, tb)
+		}
+		if blockLimit && len(fl.blocks[0]) > 0 {
+			// any tombstone on the key makes the compactor decode and re-chunk all its blocks
+			t := fl.blocks[0][0].ts[rapid.IntRange(0, 999).Draw(rt, "limitTomb")]
+			fl.tombs = append(fl.tombs, vC09Tomb{kind: "partial", keys: []int{0}, min: t, max: t, late: rapid.Bool().Draw(rt, "limitTombLate")})
 		}
 	}
 	// absolute time base: mostly 0, sometimes at the ends of the valid timestamp range
@@ -423,10 +457,10 @@ func (c *vC09Case) write(dir string) error {
 		if err != nil {
 			return err
 		}
-		w, err := NewTSMWriter(fd)
-		if err != nil {
-			return err
-		}
+		// NewTSMWriter with small buffers (it allocates 2 MiB per writer, which dominates the
+		// cost of a case); the bytes written are the same
+		ibuf := bytes.NewBuffer(make([]byte, 0, 8192))
+		var w TSMWriter = &tsmWriter{wrapped: fd, w: bufio.NewWriterSize(fd, 64*1024), index: &directIndex{buf: ibuf, w: bufio.NewWriter(ibuf)}}
 		for k, lay := range fl.blocks {
 			for _, b := range lay {
 				vals := make([]Value, len(b.ts))
@@ -619,35 +653,35 @@ func vC09ReadCursor(fs *FileStore, key string, typ byte, asc bool) (ts []int64, 
 	}
 }
 
-// vC09MaxCursorLocations: sort.Sort uses insertion sort up to 12 elements; beyond that the
-// non-transitive ascLocations/descLocations order can put an older overlapping block after a
-// newer one (known finding, see TestVerifC09KFKeyCursorOrder).
-const vC09MaxCursorLocations = 12
-
-// vC09Locations counts the index entries per key over all files of the store.
-func vC09Locations(fs *FileStore, keys []string) (map[string]int, error) {
-	rs, err := vC09SortedReaders(fs)
-	if err != nil {
-		return nil, err
-	}
-	out := map[string]int{}
-	var es []IndexEntry
-	for _, nr := range rs {
-		for _, k := range keys {
-			es = nr.r.ReadEntries([]byte(k), &es)
-			out[k] += len(es)
-		}
-	}
-	return out, nil
-}
-
-// vC09MaxMergeBlocks: sort.Stable is a plain insertion sort up to 20 elements (see the known
-// finding compaction-misorders-more-than-20-blocks-of-a-key, TestVerifC09KFMergeOrder).
+// vC09MaxMergeBlocks: sort.Stable is a plain insertion sort up to 20 elements, which never
+// swaps two overlapping blocks; beyond that the non-transitive blocks.Less can put an older
+// block after a newer overlapping one (known finding compaction-misorders-more-than-20-blocks-
+// of-a-key, TestVerifC09KFMergeOrder). When no two blocks of the key overlap the order is a
+// strict total order by time and any number of blocks is fine.
 const vC09MaxMergeBlocks = 20
 
-// vC09GroupBlocks counts the index entries per key over the given files.
-func vC09GroupBlocks(fs *FileStore, paths []string, keys []string) (map[string]int, error) {
-	out := map[string]int{}
+// vC09MaxCursorLocations: the same for sort.Sort (insertion sort up to 12 elements) with
+// ascLocations/descLocations in the KeyCursor (TestVerifC09KFKeyCursorOrder).
+const vC09MaxCursorLocations = 12
+
+type vC09KeyBlocks struct {
+	n       int
+	overlap bool // two blocks (necessarily of different files) overlap in time
+}
+
+// vC09GroupBlocks counts the index entries per key over the given files (nil = all files of the
+// store) and reports whether any two of them overlap.
+func vC09GroupBlocks(fs *FileStore, paths []string, keys []string) (map[string]vC09KeyBlocks, error) {
+	if paths == nil {
+		rs, err := vC09SortedReaders(fs)
+		if err != nil {
+			return nil, err
+		}
+		for _, nr := range rs {
+			paths = append(paths, nr.r.Path())
+		}
+	}
+	all := map[string][]IndexEntry{}
 	var es []IndexEntry
 	for _, p := range paths {
 		r := fs.TSMReader(p)
@@ -656,9 +690,21 @@ func vC09GroupBlocks(fs *FileStore, paths []string, keys []string) (map[string]i
 		}
 		for _, k := range keys {
 			es = r.ReadEntries([]byte(k), &es)
-			out[k] += len(es)
+			all[k] = append(all[k], es...)
 		}
 		r.Unref()
+	}
+	out := map[string]vC09KeyBlocks{}
+	for k, l := range all {
+		sort.Slice(l, func(i, j int) bool { return l[i].MinTime < l[j].MinTime })
+		kb := vC09KeyBlocks{n: len(l)}
+		for i := 1; i < len(l); i++ {
+			if l[i].MinTime <= l[i-1].MaxTime { // sorted by min and disjoint so far: previous max is the running max
+				kb.overlap = true
+				break
+			}
+		}
+		out[k] = kb
 	}
 	return out, nil
 }
@@ -722,6 +768,20 @@ func vC09Diff(want, got vC09Content, skip map[string]bool) string {
 		}
 	}
 	return ""
+}
+
+// vC09TempDir makes the directory of one case: on tmpfs when the machine has one (the code under
+// test fsyncs every file and directory it touches, which on a shared disk costs more than the
+// compaction itself), otherwise under TMPDIR.
+func vC09TempDir() (string, error) {
+	if os.Getenv("VERIF_C09_NO_SHM") == "" {
+		if fi, err := os.Stat("/dev/shm"); err == nil && fi.IsDir() {
+			if d, err := os.MkdirTemp("/dev/shm", "verif-c09-"); err == nil {
+				return d, nil
+			}
+		}
+	}
+	return os.MkdirTemp("", "c09")
 }
 
 // vC09DirState hashes every file in dir.
